@@ -1,5 +1,6 @@
-(* C18 — logging is transparent. *)
-From GV Require Import Base.Bytes Vedirect.Frame Vedirect.Port Vedirect.Driver Vedirect.LogFacts.
+(* C18 — logging is transparent and the I/O log replays. *)
+From GV Require Import Base.Bytes Vedirect.Frame Vedirect.Port Vedirect.Driver Vedirect.LogFacts
+     Vedirect.SeqFacts Vedirect.ReplayFacts.
 
 (* For any two logger configurations and any two driver states that agree on the reader
    and the port (whatever their log buffers hold), every call returns the same result and
@@ -31,3 +32,38 @@ Theorem C18_one_line : forall c, cfg_iolog c = true -> forall idle k s,
     io_tx (snd (do_call c idle k s)) = [] /\ io_rx (snd (do_call c idle k s)) = [].
 Proof. exact typed_call_one_line. Qed.
 Print Assumptions C18_one_line.
+
+(* REPLAY.  With an I/O logger and empty log buffers (the state after every typed call and
+   of a new driver), a typed register read — unsigned, signed or string; any address, any
+   driver state and device script, idle or busy line — that wrote exactly one command emits
+   exactly one line (tx, rx), tx being that command frame, and a fresh driver on a lookup port
+   that answers tx with rx returns the same result (value, decoding error or device error)
+   under any logger configuration. *)
+Theorem C18_replay : forall c k addr idle s,
+  cfg_iolog c = true -> io_tx s = [] -> io_rx s = [] -> k <> GRaw ->
+  let '(r, s') := do_call c idle (call_of k addr) s in
+  nwrites (pt s') = S (nwrites (pt s)) ->
+  exists rx, io_lines s' = io_lines s ++ [(tx_frame 7 (addr mod 65536), rx)] /\
+             forall c2, fst (do_call c2 true (call_of k addr) (lookup_state rx)) = r.
+Proof. exact typed_get_replays. Qed.
+Print Assumptions C18_replay.
+
+(* Ping and GetDeviceId always are a single exchange: one line; whenever the command went
+   out (tx not empty), tx is the command frame and the replay reproduces the result — the
+   value, the response-parsing error, or the transport failure *)
+Theorem C18_replay_commands : forall c k idle s,
+  k = CPing \/ k = CDeviceId -> cfg_iolog c = true -> io_tx s = [] -> io_rx s = [] ->
+  let '(r, s') := do_call c idle k s in
+  exists tx rx, io_lines s' = io_lines s ++ [(tx, rx)] /\
+    (tx <> [] -> tx = command_frame k /\ forall c2, fst (do_call c2 true k (lookup_state rx)) = r).
+Proof. exact command_replays. Qed.
+Print Assumptions C18_replay_commands.
+
+(* non-vacuity: a string read answered after noise and an async frame, replayed *)
+Example C18_replay_scenario :
+  let dev := [x0d;x0a;x3a;x41;x34;x46;x45;x44;x30;x30;x31;x32;x46;x44;x0a;x3a;x37;x30;x41;x30;x31;x30;x30;x34;x38;x35;x31;x33;x32;x30;x30;x37;x38;x0a] in
+  let s := vd_new (mkPort [] [[RData dev]] [] [] false [] 0 0 0 0 []) in
+  let '(r, s') := do_call (mkCfg false true) true (CGetString 266) s in
+  nwrites (pt s') = 1%nat /\ io_lines s' = [(tx_frame 7 266, dev)] /\
+  fst (do_call (mkCfg false false) true (CGetString 266) (lookup_state dev)) = r.
+Proof. vm_compute. split; [reflexivity|split; reflexivity]. Qed.
